@@ -63,6 +63,9 @@ def _summary(out):
 
 # ------------------------------------------------------------------------------- design
 def _design(ctx, quick):
+    if os.environ.get("X01_SKIP_DESIGN"):
+        # binding demonstrations only (bin/mutcheck): the design check involves no code under test
+        return {"runs": [], "states": 1, "transitions": 1, "mutants": {}, "skipped": True}
     jobs = [dict(module="TrackSortMC", cfg="TrackSortMC", workers=2, timeout=1500, heap="6g", expect_ok=True,
                  coverage=not quick)]
     if not quick:
@@ -192,7 +195,13 @@ def _objects(ctx, quick):
     parts = []
     t0 = time.time()
     sp = ctx.path("state.ndjson")
-    vlib.run_harness("vtracksort", ["state", sp, ctx.seed, 3 if quick else 12], timeout=900)
+    crashes = []
+    h = vlib.run_harness("vtracksort", ["state", sp, ctx.seed, 3 if quick else 12], timeout=900, check=False)
+    if h.returncode != 0:
+        if h.returncode in (2, 3):
+            raise vlib.Broken("vtracksort state failed to set up:\n" + (h.stderr or "")[-2000:])
+        crashes.append("vtracksort state <out> %d exited %d (exception / crash inside the code under test)\n%s"
+                       % (ctx.seed, h.returncode, (h.stderr or "")[-1200:]))
     parts.append(sp)
     runs = []
     nseeds = 1 if quick else 4
@@ -202,7 +211,6 @@ def _objects(ctx, quick):
     for o in ("reindex_step_limit_action", "reindex_both_action", "reindex_along_step_action", "reindex_status"):
         for s in range(1 if quick else 3):
             runs.append((o, ctx.seed + 7 + 13 * s, 8, 6, 40, True))
-    crashes = []
     for i, (o, s, nslots, nprim, maxsteps, nomat) in enumerate(runs):
         p = ctx.path("live_%02d.ndjson" % i)
         args = ["live", p, s, o, nslots, nprim, maxsteps] + (["nomat"] if nomat else [])
